@@ -288,6 +288,8 @@ def generate(prop, seed, tier):
     env.boot()
     if prop == 'C14':
         return generate_c14(seed, tier)
+    if prop == 'C08' and rng.stream(seed, 'tplsel').random() < 0.15:
+        return generate_c08_template(seed, tier)
     scn, r = gen_base(prop, seed, tier)
     if prop == 'C08':
         b = scn['rule'] if isinstance(scn['rule'], int) else 10
@@ -303,6 +305,22 @@ def generate(prop, seed, tier):
         if scn['fault']['kind'] == 'preprocess' and not scn['chain']:
             scn['chain'] = ['cast']
     settle_exact(scn)
+    return scn
+
+
+def generate_c08_template(seed, tier):
+    """C08 for the template attacks: build once, then matching run() calls with a convergence step."""
+    scn = generate_c14(rng.H(seed, 'c08tpl'), tier)
+    r = rng.stream(seed, 'workload')
+    scn.update({'prop': 'C08', 'seed': seed, 'template': True, 'auto': False, 'probe_before_build': False, 'build_rule': 1000})
+    if scn['style'] == 'auto':
+        scn['style'] = 'range'
+    nm = r.randint(2, 40)
+    scn['nm'] = nm
+    scn['match_cuts'] = sorted(set(r.sample(range(1, nm), r.choice([0, 0, 1, 2]) if nm > 2 else 0)))
+    b = r.choice([1, 2, 3, 5, 8, 13, 50])
+    scn['match_rule'] = b
+    scn['step'] = _w(r, [(1, 1), (max(1, b - 1), 1), (b, 1.5), (b + 1, 1), (2 * b, 1), (r.randint(1, nm), 3), (nm + 3, 0.7), (nm, 0.7)])
     return scn
 
 
@@ -354,6 +372,8 @@ def execute(scn):
     try:
         if scn['prop'] == 'C14':
             return execute_c14(scn)
+        if scn.get('template'):
+            return _execute_c08_template(scn, scared)
         return _execute(scn, scared)
     finally:
         Hook.reset()
@@ -556,7 +576,68 @@ def _after_fault(scn, scared, att, rec, storage, sf, E, D, samples, pt, run_exc,
             'probes': probes, 'sim_time': storage.seq}
 
 
-def _check_convergence(scn, scared, att, rec, sf, EE, DD, cols_after_run, probes):
+def _execute_c08_template(scn, scared):
+    storage = Storage()
+    rec = Recorder()
+    Tb, vb, Tm, ptm, vm = c14_data(scn)
+    classes = list(scn['classes'])
+    k = len(classes)
+    kind = scn['kind']
+    nm = len(Tm)
+    probes = {}
+    violation = None
+
+    def mk_attack(step, record):
+        ths = make_ths(storage, Tb, {'value': vb[:, None].copy()}, 'build')
+        rsf = scared.reverse_selection_function(kinds._value_sf)
+        if kind == 'tstatic':
+            K, kw = scared.TemplateAttack, {}
+        else:
+            K = scared.TemplateDPAAttack
+            kw = {'selection_function': scared.attack_selection_function(kinds._make_leak_sf(classes), guesses=range(k), words=0)}
+        if record:
+            K = recording(K, rec, storage)
+        a = K(container_building=scared.Container(ths), reverse_selection_function=rsf, model=scared.Value(), partitions=classes,
+              precision=scn['precision'], convergence_step=step, **kw)
+        a.build()
+        return a
+
+    def mk_container(lo, hi, tag):
+        meta = {'value': vm[lo:hi, None].copy()} if kind == 'tstatic' else {'plaintext': ptm[lo:hi]}
+        return scared.Container(make_ths(storage, Tm[lo:hi], meta, tag))
+
+    DD = vm[:, None].copy() if kind == 'tstatic' else np.stack([kinds.leak(classes, ptm[:, 0], g) for g in range(k)], 1)
+    tol = compare.tol_for(scn['precision'])
+    cols_after_run = []
+    with env.clock(env.SimClock()), env.memory(env.SimMemory()):
+        scared.set_batch_size(1000)
+        att = mk_attack(scn['step'], True)
+        plain = mk_attack(None, False)
+        scared.set_batch_size(scn['match_rule'])
+        cuts = [c for c in scn['match_cuts'] if 0 < c < nm]
+        b = [0] + cuts + [nm]
+        for j, (lo, hi) in enumerate(zip(b, b[1:])):
+            att.run(mk_container(lo, hi, 'match%d' % j))
+            plain.run(mk_container(lo, hi, 'plain%d' % j))
+            ct = getattr(att, 'convergence_traces', None)
+            cols_after_run.append(0 if ct is None else int(ct.shape[-1]))
+            if not compare.close(att.scores, plain.scores, tol):
+                violation = viol('convergence_changes_scores', ['C08', 'convergence_changes_scores', kind], 'run %d: scores differ from the attack without convergence_step' % j)
+                break
+        if violation is None and rec.updates:
+            T = np.concatenate([u[0] for u in rec.updates])
+            if T.shape == Tm.shape and compare.bitwise(T, Tm):
+                violation = _check_convergence(scn, scared, att, rec, None, Tm, DD, cols_after_run, probes, fresh=lambda: mk_attack(None, False), tol=tol)
+            else:
+                probes['update_boundary_unobservable'] = 1
+    lens = [len(u[0]) for u in rec.updates]
+    case = rng.digest([kind, classes, scn['step'], lens, cols_after_run])
+    return {'violation': violation, 'inconclusive': False, 'digest': rng.digest([storage.events, lens]), 'case': case,
+            'nontrivial': bool(cols_after_run) and cols_after_run[-1] >= 2, 'faults': {}, 'probes': probes, 'sim_time': storage.seq,
+            'counts': {'template_convergence_runs': 1}}
+
+
+def _check_convergence(scn, scared, att, rec, sf, EE, DD, cols_after_run, probes, fresh=None, tol=None):
     prop = 'C08'
     step = scn['step']
     ct = getattr(att, 'convergence_traces', None)
@@ -566,12 +647,15 @@ def _check_convergence(scn, scared, att, rec, sf, EE, DD, cols_after_run, probes
         # no column at all: legal only if ... the property promises a last column equal to the final scores
         return viol('no_convergence_traces', [prop, 'no_convergence_traces', scn['kind']], 'convergence_step=%s, %d rows, no convergence_traces' % (step, total))
     ncol = ct.shape[-1]
-    if not compare.bitwise(ct[..., -1], np.asarray(att.scores).astype(ct.dtype)):
+    def same(x, y):
+        return compare.bitwise(x, y) if tol is None else compare.close(x, y, tol)
+
+    if not same(ct[..., -1], np.asarray(att.scores).astype(ct.dtype)):
         return viol('last_column_not_final_scores', [prop, 'last_column_not_final_scores', scn['kind']], 'last column differs from scores')
-    K = classes_of(scared)[scn['kind']][0]
+    K = None if fresh is not None else classes_of(scared)[scn['kind']][0]
     sc_at = {}
     for b in bounds:
-        a = K(**analysis_kwargs(scn, sf))
+        a = fresh() if fresh is not None else K(**analysis_kwargs(scn, sf))
         try:
             with env.clock(env.SimClock()), env.memory(env.SimMemory()):
                 a.update(traces=EE[:b], data=DD[:b])
@@ -579,7 +663,7 @@ def _check_convergence(scn, scared, att, rec, sf, EE, DD, cols_after_run, probes
             sc_at[b] = np.asarray(a.scores).astype(ct.dtype)
         except Exception:
             pass
-    cands = [[b for b in bounds if b in sc_at and compare.bitwise(sc_at[b], ct[..., c])] for c in range(ncol)]
+    cands = [[b for b in bounds if b in sc_at and same(sc_at[b], ct[..., c])] for c in range(ncol)]
     last_of_run = set(c - 1 for c in cols_after_run if c > 0)
 
     @functools.lru_cache(None)
@@ -803,6 +887,9 @@ def execute_c14(scn):
 # ----------------------------------------------------------------------------- shrinking
 
 def precondition(scn):
+    if scn.get('template'):
+        return len(scn['classes']) >= 2 and all(p >= 2 for p in scn['per_class']) and len(scn['per_class']) == len(scn['classes']) and scn['nm'] >= 1 \
+            and sum(p - 1 for p in scn['per_class']) >= 2 * scn['L'] + 2 and scn['step'] >= 1 and 0 <= scn['key'] < len(scn['classes'])
     if scn['prop'] == 'C14':
         return len(scn['classes']) >= 2 and all(p >= 2 for p in scn['per_class']) and len(scn['per_class']) == len(scn['classes']) and scn['nm'] >= 1 \
             and sum(p - 1 for p in scn['per_class']) >= 2 * scn['L'] + 2 \
@@ -824,8 +911,15 @@ def precondition(scn):
 
 
 def candidates(scn):
-    if scn['prop'] == 'C14':
-        yield from _cands_c14(scn)
+    if scn['prop'] == 'C14' or scn.get('template'):
+        for c in _cands_c14(scn):
+            if scn.get('template'):
+                c['match_cuts'] = [x for x in c['match_cuts'] if x < c['nm']]
+            yield c
+        if scn.get('template') and scn['step'] > 1:
+            c = copy.deepcopy(scn)
+            c['step'] = max(1, scn['step'] // 2)
+            yield c
         return
     if len(scn['sets']) > 1:
         for j in range(len(scn['sets'])):
@@ -895,6 +989,8 @@ def _cands_c14(scn):
 
 
 def summary(scn):
+    if scn.get('template'):
+        return {k: scn[k] for k in ('kind', 'style', 'classes', 'L', 'precision', 'tdtype', 'nm', 'match_rule', 'match_cuts', 'step')}
     if scn['prop'] == 'C14':
         return {k: scn[k] for k in ('kind', 'style', 'classes', 'L', 'precision', 'tdtype', 'per_class', 'nm', 'build_rule', 'match_rule', 'match_cuts', 'probe_before_build')}
     s = {k: scn[k] for k in ('kind', 'mode', 'sets', 'rule', 'frame', 'chain', 'words', 'precision', 'tdtype', 'classes', 'step', 'discriminant') if k in scn}
